@@ -23,7 +23,7 @@ import os
 import subprocess
 from typing import Any
 
-from detsim import env, gen, parseop, rng, runner, simfs
+from detsim import env, gen, minimize, parseop, rng, runner, simfs
 from detsim.observe import exc_token, observe_chart
 from detsim.sched import HarnessError, Scheduler
 
@@ -502,18 +502,7 @@ def shrink(plan: dict[str, Any]):
                     yield {**base, "clients": clients[:ci] + [ops[:k] + [op2] + ops[k + 1:]] + clients[ci + 1:]}
     if (plan.get("knobs") or {}).get("cache_clear"):
         yield {**base, "knobs": {}}
-    sch = plan["schedule"]
-    if sch.get("mode") != "sequential":
-        yield {**base, "schedule": {"mode": "sequential", "seed": 0, "p_boundary": 0.0}}
-    if sch.get("mode") == "explicit":
-        sw = sch["switches"]
-        n = len(sw)
-        if n > 4:
-            yield {**base, "schedule": {**sch, "switches": sw[: n // 2], "where": []}}
-            yield {**base, "schedule": {**sch, "switches": sw[n // 2:], "where": []}}
-        if n <= 40:
-            for i in range(n):
-                yield {**base, "schedule": {**sch, "switches": sw[:i] + sw[i + 1:], "where": []}}
+    yield from minimize.shrink_schedule(base)
     # smaller texts: drop body lines of used texts
     used = {op["text"] for ops in clients for op in ops}
     for ci_, c in enumerate(plan["corpus"]):
